@@ -848,7 +848,13 @@ func (g *exrecGen) settle() {
 	if g.rng.Chance(5) {
 		m = g.market()
 	}
-	g.emit(fmt.Sprintf("settle m=%s a=%d b=%d ep=%s by=%s", m, a.OrderId, b.OrderId, ep, g.admin()))
+	if res := g.emit(fmt.Sprintf("settle m=%s a=%d b=%d ep=%s by=%s", m, a.OrderId, b.OrderId, ep, g.admin())); res == "ok" {
+		if ep == "1" {
+			g.out.Count("branch:settle_partial_fill")
+		} else {
+			g.out.Count("branch:settle_full_fill")
+		}
+	}
 }
 
 func (g *exrecGen) paymentOp() {
@@ -1093,7 +1099,12 @@ func (g *exrecGen) history(thorough bool) {
 		}
 		if g.rng.Chance(10) {
 			g.emit("get id=" + g.orderID())
-			g.emit(fmt.Sprintf("getext m=%s x=%s", g.market(), g.ext()))
+			gm, gx := g.market(), g.ext()
+			if os := g.openOrders(); len(os) > 0 && g.rng.Chance(60) {
+				o := Pick(g.rng, os)
+				gm, gx = strconv.Itoa(int(o.GetMarketID())), exrecShowExt(o.GetExternalID())
+			}
+			g.emit(fmt.Sprintf("getext m=%s x=%s", gm, gx))
 			g.emit(fmt.Sprintf("getpay s=%s x=%s", Pick(g.rng, exrecOwners), g.ext()))
 		}
 		if i == mid {
